@@ -40,6 +40,7 @@ use super::*;
 //@include prelude/analyze_spec.rs
 //@include prelude/visit_spec.rs
 //@include prelude/visit_shims.rs
+//@include prelude/visit_l2.rs
 } // mod pre
 use pre::*;
 
@@ -155,11 +156,12 @@ impl FixtureDatabase {
     }
 @after is_pytestmark 1
     proof {
-        let ts = assign.targets@;
-        if !is_pytestmark {
-            assert forall|i: int| 0 <= i < ts.len() implies !is_pytestmark_name(#[trigger] ts[i]) by { let y = ts.as_ref()[i]; }
+        assert(is_pytestmark == has_pytestmark_target(assign.targets@)) by {
+            let ts = assign.targets@;
+            if !is_pytestmark {
+                assert forall|i: int| 0 <= i < ts.len() implies !is_pytestmark_name(#[trigger] ts[i]) by { let y = ts.as_ref()[i]; }
+            }
         }
-        assert(is_pytestmark == has_pytestmark_target(ts));
     }
 @before visit_pytestmark_assignment 1
     let ghost s0 = *self;
@@ -270,9 +272,9 @@ impl FixtureDatabase {
         uu = uu + u2;
     }
 @after for 3
-    proof { reveal(rec_rel); }
+    proof { lemma_rec_open(*old(self), *self, du, uu, f); }
 @return 2
-    reveal(rec_rel);
+    lemma_rec_open(*old(self), *self, du, uu, f);
 @before for 4
     let ghost fv = FnV { name: func_name@, decos: decorator_list@, args: **args, range: range, body: body@, returns: *returns };
     let ghost ds = decorator_list@;
@@ -373,21 +375,25 @@ impl FixtureDatabase {
     proof { assert(ub == ua + decos_uses(ds, ds.len() as int, 1, f, li)); }
 @after fixture_decorator 1
     proof {
-        let sr = ds.as_ref();
-        match fixture_decorator {
-            Some(d) => {
-                assert(exists|k: int| 0 <= k < sr.len() && sr[k] == d && spec_is_fixture_decorator(sr[k])
-                    && forall|j: int| 0 <= j < k ==> !spec_is_fixture_decorator(#[trigger] sr[j]));
-                let k = choose|k: int| 0 <= k < sr.len() && sr[k] == d && spec_is_fixture_decorator(sr[k])
-                    && forall|j: int| 0 <= j < k ==> !spec_is_fixture_decorator(#[trigger] sr[j]);
-                assert forall|j: int| 0 <= j < k implies !spec_is_fixture_decorator(&#[trigger] ds[j]) by { let y = sr[j]; }
-                lemma_first_fix_at(ds, 0, k);
-                assert(*d == ds[first_fix(ds, 0)->0]);
-            }
-            None => {
-                assert(forall|j: int| 0 <= j < sr.len() ==> !spec_is_fixture_decorator(#[trigger] sr[j]));
-                assert forall|j: int| 0 <= j < ds.len() implies !spec_is_fixture_decorator(&#[trigger] ds[j]) by { let y = sr[j]; }
-                lemma_first_fix_none(ds, 0);
+        assert(match fixture_decorator {
+            Some(d) => first_fix(ds, 0) is Some && *d == ds[first_fix(ds, 0)->0],
+            None => first_fix(ds, 0) is None,
+        }) by {
+            let sr = ds.as_ref();
+            match fixture_decorator {
+                Some(d) => {
+                    assert(exists|k: int| 0 <= k < sr.len() && sr[k] == d && spec_is_fixture_decorator(sr[k])
+                        && forall|j: int| 0 <= j < k ==> !spec_is_fixture_decorator(#[trigger] sr[j]));
+                    let k = choose|k: int| 0 <= k < sr.len() && sr[k] == d && spec_is_fixture_decorator(sr[k])
+                        && forall|j: int| 0 <= j < k ==> !spec_is_fixture_decorator(#[trigger] sr[j]);
+                    assert forall|j: int| 0 <= j < k implies !spec_is_fixture_decorator(&#[trigger] ds[j]) by { let y = sr[j]; }
+                    lemma_first_fix_at(ds, 0, k);
+                }
+                None => {
+                    assert(forall|j: int| 0 <= j < sr.len() ==> !spec_is_fixture_decorator(#[trigger] sr[j]));
+                    assert forall|j: int| 0 <= j < ds.len() implies !spec_is_fixture_decorator(&#[trigger] ds[j]) by { let y = sr[j]; }
+                    lemma_first_fix_none(ds, 0);
+                }
             }
         }
         assert(ub + Seq::<UseV>::empty() =~= ub);
@@ -426,8 +432,9 @@ impl FixtureDatabase {
     let ghost s1 = *self;
     let ghost x = dv(&definition);
     proof {
-        assert(x.dependencies =~= deps_of(aps, aps.len() as int));
-        assert(x == fixture_def(fv, ds[kd], f, src, li));
+        assert(x == fixture_def(fv, ds[kd], f, src, li)) by {
+            assert(x.dependencies =~= deps_of(aps, aps.len() as int));
+        }
     }
 @after record_fixture_definition 1
     proof {
@@ -499,7 +506,7 @@ impl FixtureDatabase {
     proof {
         assert(du =~= visit_defs(*stmt, f, src, li));
         assert(uu == func_uses(fv, f, li));
-        reveal(rec_rel);
+        lemma_rec_open(*old(self), *self, du, uu, f);
     }
 @*/
 
@@ -545,6 +552,42 @@ impl FixtureDatabase {
 @sig
     requires is_line_index(ints(line_index@)),
     ensures rec_rel(*old(self), *final(self), Seq::empty(), pytestmark_uses(opt_deref(value), pbv(file_path), line_index@), pbv(file_path)),
+@start
+    let ghost f = pbv(file_path);
+    let ghost li = line_index@;
+    let ghost mut uu: Seq<UseV> = Seq::empty();
+    proof { lemma_rec_refl(*old(self), f); }
+@after usefixtures 1
+    let ghost ps = lpairs_v(usefixtures@);
+    proof { lemma_ufe_post(value, usefixtures@); }
+@loopvar 1 it
+@loop 1
+    invariant f == pbv(file_path), li == line_index@, is_line_index(ints(li)),
+        ps == lpairs_v(it.seq()),
+        uu == lit_uses(ps.take(it.index@ as int), f, li, true),
+        rec_rel(*old(self), *self, Seq::empty(), uu, f),
+@before record_fixture_usage 1
+    let ghost s1 = *self;
+    let ghost i = it.index@ as int;
+    let ghost x = lit_use_sat(ps[i], f, li);
+    proof { assert(ps[i] == (fixture_name@, range)); }
+@after record_fixture_usage 1
+    proof {
+        lemma_rec_use(*old(self), s1, *self, Seq::empty(), uu, x, f);
+        assert(ps.take(i + 1).map_values(lit_use_fn(f, li, true)) =~= ps.take(i).map_values(lit_use_fn(f, li, true)).push(x));
+        uu = uu.push(x);
+    }
+@end
+    proof { assert(ps.take(ps.len() as int) =~= ps); }
+@*/
+
+/*@ extract src/fixtures/analyzer.rs visit_pytestmark_assignment
+@tags C03
+@as canary_visit_pytestmark_records_nothing
+@recv mut
+@sig
+    requires is_line_index(ints(line_index@)),
+    ensures rec_rel(*old(self), *final(self), Seq::empty(), Seq::empty(), pbv(file_path)),
 @start
     let ghost f = pbv(file_path);
     let ghost li = line_index@;
